@@ -211,6 +211,100 @@ fn build_themed(theme: u8, bytes: &[u8], sym: u8) -> Option<Pos> {
     }
 }
 
+/// Mates in one delivered by a special move: theme 2 = castling (either side of the board), theme 3 = an en-passant
+/// capture. Up to 80 pseudo-random placements derived from `bytes` are tried until the special move mates; the
+/// position is returned with White to move (the colour mirror is applied afterwards by `sym`).
+fn build_special(theme: u8, bytes: &[u8], sym: u8) -> Option<Pos> {
+    let mut x = fp_bytes(bytes) ^ theme as u64;
+    let mut next = |n: usize| -> usize {
+        x = mix(x);
+        (x >> 33) as usize % n.max(1)
+    };
+    for _ in 0..80 {
+        let mut b = [b'.'; 64];
+        let mut cr = [false; 4];
+        let mut ep = None;
+        let special_kind;
+        if theme % 4 == 2 {
+            b[4] = b'K';
+            let short = next(2) == 0;
+            if short {
+                b[7] = b'R';
+                cr[0] = true;
+            } else {
+                b[0] = b'R';
+                cr[1] = true;
+            }
+            special_kind = if short { K_OO } else { K_OOO };
+            // the rook lands on f1 / d1: the black king somewhere on that file (not next to e1), or on the first rank beyond it
+            let rf = if short { 5usize } else { 3 };
+            let ks = if next(4) == 0 { if short { 6 + next(2) } else { next(2) } } else { (2 + next(6)) * 8 + rf };
+            if b[ks] != b'.' {
+                continue;
+            }
+            b[ks] = b'k';
+        } else {
+            // white pawn on the fifth rank, the black pawn beside it has just come from the seventh
+            let wf = next(8);
+            let bf = if wf == 0 { 1 } else if wf == 7 { 6 } else if next(2) == 0 { wf - 1 } else { wf + 1 };
+            b[32 + wf] = b'P';
+            b[32 + bf] = b'p';
+            ep = Some(bf as u8);
+            special_kind = K_EP;
+            let ks = (4 + next(4)) * 8 + (bf as i32 + next(5) as i32 - 2).clamp(0, 7) as usize;
+            if b[ks] != b'.' || ks == 40 + bf || ks == 48 + bf {
+                continue;
+            }
+            b[ks] = b'k';
+            let wk = next(64);
+            if b[wk] != b'.' {
+                continue;
+            }
+            b[wk] = b'K';
+        }
+        let ks = b.iter().position(|&c| c == b'k').unwrap();
+        // white men, mostly near the black king; a few black men that take flight squares away
+        for _ in 0..(2 + next(4)) {
+            let c = b"QRRBBNNP"[next(8)];
+            let s = if next(4) != 0 {
+                let (r, f) = ((ks / 8) as i32 + next(7) as i32 - 3, (ks % 8) as i32 + next(7) as i32 - 3);
+                if !(0..8).contains(&r) || !(0..8).contains(&f) {
+                    continue;
+                }
+                (r * 8 + f) as usize
+            } else {
+                next(64)
+            };
+            if b[s] == b'.' && !(c == b'P' && (s / 8 == 0 || s / 8 == 7)) && !(ep.is_some() && (s == 40 + ep.unwrap() as usize || s == 48 + ep.unwrap() as usize)) {
+                b[s] = c;
+            }
+        }
+        for _ in 0..next(3) {
+            let c = b"ppnbr"[next(5)];
+            let (r, f) = ((ks / 8) as i32 + next(3) as i32 - 1, (ks % 8) as i32 + next(3) as i32 - 1);
+            if !(0..8).contains(&r) || !(0..8).contains(&f) {
+                continue;
+            }
+            let s = (r * 8 + f) as usize;
+            if b[s] == b'.' && !(c == b'p' && (s / 8 == 0 || s / 8 == 7)) && !(ep.is_some() && (s == 40 + ep.unwrap() as usize || s == 48 + ep.unwrap() as usize)) {
+                b[s] = c;
+            }
+        }
+        let p = Pos { b, white: true, cr, ep };
+        if !p.sane() {
+            continue;
+        }
+        let mates = p.legal().into_iter().any(|m| m.kind == special_kind && {
+            let q = p.make(m);
+            q.in_check(q.white) && q.legal().is_empty()
+        });
+        if mates {
+            return Some(if sym & 2 != 0 { p.mirror() } else { p });
+        }
+    }
+    None
+}
+
 #[derive(Debug, Clone, Copy, PartialEq)]
 enum Label {
     Dead,
@@ -266,6 +360,13 @@ impl C10 {
                 ev.class("mate_in_1_positions");
                 if keys.iter().all(|k| k.len() == 5) {
                     ev.class("mate_in_1_only_by_promotion");
+                }
+                let key_moves = mate_in_1_moves(p);
+                if key_moves.iter().all(|m| m.kind == K_OO || m.kind == K_OOO) {
+                    ev.class("mate_in_1_only_by_castling");
+                }
+                if key_moves.iter().all(|m| m.kind == K_EP) {
+                    ev.class("mate_in_1_only_by_en_passant");
                 }
                 if !p.b.iter().any(|c| b"QRPqrp".contains(c)) {
                     ev.class("mate_in_1_with_minor_pieces_only");
@@ -413,7 +514,7 @@ impl Prop for C10 {
             9 => (men, 0u8..64, 0u8..64, any::<bool>(), any::<u8>(), prop::bool::weighted(0.05), 0u8..8)
                 .prop_map(|(men, wk, bk, white, sample, via_uci, history)| MateCase::Small { men, wk, bk, white, sample, via_uci, history }),
             1 => (walk_strategy(false), any::<u8>()).prop_map(|(walk, sample)| MateCase::WalkEnd { walk, sample }),
-            8 => (prop_oneof![1 => Just(0u8), 2 => Just(1u8)], proptest::collection::vec(any::<u8>(), 20..21), 0u8..4, 0u8..8).prop_map(|(theme, bytes, sym, history)| MateCase::Themed { theme, bytes, sym, history }),
+            8 => (prop_oneof![5 => Just(0u8), 10 => Just(1u8), 1 => Just(2u8), 1 => Just(3u8)], proptest::collection::vec(any::<u8>(), 20..21), 0u8..4, 0u8..8).prop_map(|(theme, bytes, sym, history)| MateCase::Themed { theme, bytes, sym, history }),
         ]
         .boxed()
     }
@@ -427,10 +528,16 @@ impl Prop for C10 {
                     return Ok(());
                 }
             },
-            MateCase::Themed { theme, bytes, sym, history } => match build_themed(*theme, bytes, *sym) {
+            MateCase::Themed { theme, bytes, sym, history } => match if *theme >= 2 { build_special(*theme, bytes, *sym) } else { build_themed(*theme, bytes, *sym) } {
                 Some(p) => {
-                    ev.class(if theme % 2 == 0 { "themed_corner_cage_candidates" } else { "themed_promotion_candidates" });
-                    (p, 0, false, *history)
+                    ev.class(match theme % 4 {
+                        0 => "themed_corner_cage_candidates",
+                        1 => "themed_promotion_candidates",
+                        2 => "themed_mate_by_castling_positions",
+                        _ => "themed_mate_by_en_passant_positions",
+                    });
+                    // (a record of shuffles would cost the castling right / the en-passant file)
+                    (p, 0, false, if *theme >= 2 { 0 } else { *history })
                 }
                 None => {
                     ev.skip("construction did not yield a sane position");
